@@ -44,7 +44,7 @@ def main():
         res["builds"] = rc == 0
         # demonstration
         demo_src = next((f for f in ("demo%s_test.go" % k, "demo%s.go" % k) if os.path.exists(os.path.join(src, f))), None)
-        demo_path = meta.get("demo_path") or ""
+        demo_path = (meta.get("demo_path") or "").split()[0] if (meta.get("demo_path") or "").split() else ""
         m = re.findall(r"go test[^&;|]*", meta.get("demo_cmd", ""))
         cmd = m[-1].strip() if m else None
         if demo_src and demo_path and cmd:
@@ -71,6 +71,8 @@ def main():
                                capture_output=True, text=True, timeout=7200)
             lines = [l for l in p.stdout.splitlines() if l.startswith("VIOLATION") or l.startswith("  key=") or
                      l.startswith("INFRA") or l.startswith("OK ") or l.startswith("FAIL ")]
+            if p.returncode == 2:
+                lines += p.stdout.splitlines()[-8:]
             res["checks"][c] = dict(exit=p.returncode, caught=p.returncode == 1, tier=tier, wall_s=round(time.time() - t0),
                                     lines=[l[:400] for l in lines][:12])
         return finish(res, meta, src, k, wt)
